@@ -165,6 +165,9 @@ def expect_decimal(decl, fmt, value):
         integer_part = value.split(dec)[0]
         if not re.match(r"-?[0-9]{1,3}(?:%s[0-9]{3})+\Z" % re.escape(ths), integer_part):
             grouping_ok = False
+    if re.match(r"\s*[+-]?(inf|infinity|s?nan[0-9]*)\s*\Z", translated, re.I):
+        # spellings Python's Decimal() takes for values that are no numbers: inside no range, not even an open one
+        return (REJECT, "not a finite number")
     if not _CANONICAL_DEC.match(translated):
         try:
             Decimal(translated)
@@ -367,9 +370,9 @@ def expect_datetime(decl, fmt, value):
     if "mm" in got and got["mm"] > 59:
         return (REJECT, "minute out of range")
     if "ss" in got:
-        if got["ss"] in (60, 61):
+        if got["ss"] == 60:
             return (UNJUDGED, "leap second")
-        if got["ss"] > 61:
+        if got["ss"] > 60:
             return (REJECT, "second out of range")
     return (ACCEPT, got)
 
